@@ -170,10 +170,20 @@ func (m *MessageStore) processMessageLoop(ctx context.Context, tracer *messageMe
 			// unknown device, lets keep moving
 			continue
 		} else if !hasKnownChainKey {
-			// we dont know the chain key yet, add message to the device cache
-			device.queue.Add(message)
-			_ = m.emitters.groupCacheMessage.Emit(*message)
-			continue
+			// we dont know the chain key yet, add message to the device cache.
+			// the chain key may have been registered since getOrCreateDeviceCache
+			// released the lock: park the message under the lock held by
+			// ProcessMessageQueueForDevicePK, otherwise it would stay in the cache
+			m.muDeviceCaches.Lock()
+			if hasKnownChainKey = device.hasKnownChainKey; !hasKnownChainKey {
+				device.queue.Add(message)
+			}
+			m.muDeviceCaches.Unlock()
+
+			if !hasKnownChainKey {
+				_ = m.emitters.groupCacheMessage.Emit(*message)
+				continue
+			}
 		}
 
 		// actually process the message
